@@ -264,6 +264,37 @@ def run(repo, rep, tier):
         if isinstance(n, ast.Call) and unparse(n.func) == 'out.write':
             rep.check('blocks', 'the task does not write its buffer', False, n, 'target_worker_thread writes its buffer directly')
 
+    # nothing the task reaches may flush a target's buffer itself: the block is printed by main() from the text the task returns.  A direct
+    # OutputBuffer.write() (or write_now=True on a non-verbose level) on the scan path puts a target's error text on stdout from the worker thread,
+    # outside the block printed for that target.  Verbose/debug progress lines (out.v / out.d) are immediate by design and not counted.
+    def _outbuf_root(e):
+        while isinstance(e, ast.Call) and isinstance(e.func, ast.Attribute):
+            e = e.func.value
+        t = unparse(e)
+        return t in ('out', 'self.out', 'self.__outputbuffer', 'self.__out')
+    nflush = 0
+    for f in cg.reachable([tw]):
+        fid = func_id(f)
+        if f is tw or fid.startswith('dheat:DHEat.') and fid not in ('dheat:DHEat.dh_rate_test', 'dheat:DHEat._dh_rate_test') or fid.startswith('outputbuffer:'):
+            continue
+        for n in walk_no_nested(f):
+            if not isinstance(n, ast.Call) or not isinstance(n.func, ast.Attribute):
+                continue
+            direct = n.func.attr == 'write' and not n.args and not n.keywords and _outbuf_root(n.func.value)
+            wn = get_kw(n, 'write_now')
+            now = n.func.attr in ('fail', 'warn', 'info', 'good', 'head') and wn is not None and isinstance(wn, ast.Constant) and wn.value is True and _outbuf_root(n.func.value)
+            if not (direct or now):
+                continue
+            conds = [(unparse(t), pol) for t, pol, k in path_condition(n) if k in ('if', 'guard')]
+            single_only = ('len(aconf.target_list) > 0', False) in conds or ('len(aconf.target_list) == 0', True) in conds
+            if single_only:
+                continue
+            nflush += 1
+            rep.check('blocks', 'no out-of-band flush on the scan path: %s' % fid, False, n,
+                      '%s flushes the target\'s output buffer to stdout itself (%s): in a multi-target run the text is written by the worker thread, outside the block main() prints for this target' % (fid, unparse(n)[:80]),
+                      func=fid, stmt=stmt_text(enclosing(n)))
+    rep.samples.append({'rule': 'blocks', 'out_of_band_flush_sites': nflush})
+
     # ---- rule 5: JSON element --------------------------------------------------------------------------------------------------------
     # (a) texts assigned in the task
     for n in walk_no_nested(tw):
